@@ -64,3 +64,5 @@ Proof. split; reflexivity. Qed.
 Definition local_major_gen : text := txt Gen_vinegar.version_major.
 (* how the current tree reads a class out of an already imported module (see Vinegar.lookup_mode) *)
 Definition Mgen : lookup_mode := Gen_vinegar.load_lookup_mode.
+(* does a failure while rebuilding a response reach the request it answers (_dispatch_response) or escape _dispatch? *)
+Definition Dgen : bool := Gen_vinegar.dispatch_delivers_rebuild_failure.
